@@ -258,6 +258,10 @@ func convert(e filesystem.Extractor, pkgs []*extractor.Package, tag string, is i
 				return
 			}
 			s2 := v.String()
+			if s2 != s { // strict: printing, parsing and printing again gives the very same string
+				is.add("%spurl-roundtrip-differs", tag)
+				det(pk, tag+"purl-roundtrip-differs", s+" -> "+s2)
+			}
 			v2, err := purl.FromString(s2)
 			if err != nil || v2.String() != s2 {
 				is.add("%spurl-not-idempotent", tag)
@@ -421,6 +425,8 @@ func (d *details) add(pk *extractor.Package, code, purlStr string) {
 }
 func (d *details) str() string { return hx.Join(d.d, ",") }
 
+var emitProto func(protoCase)
+
 func runHarvest(f fixture, emitIndex func([]purlMeta)) string {
 	is := issues{}
 	dt := &details{}
@@ -457,6 +463,16 @@ func runHarvest(f fixture, emitIndex func([]purlMeta)) string {
 		}
 	}
 	purls := convert(f.ex, pkgs, "", is, dt.add)
+	if emitProto != nil {
+		for i, pk := range pkgs {
+			if i >= 6 {
+				break
+			}
+			if c, ok := protoOf(f.ex, pk); ok {
+				emitProto(c)
+			}
+		}
+	}
 	// the same packages with names / versions that need percent-encoding
 	var mut []*extractor.Package
 	for i, pk := range pkgs {
@@ -802,10 +818,23 @@ func main() {
 		byKey[f.ex.Name()+"\x00"+f.rel] = f
 	}
 	_ = exs
+	initMeta()
 	if o.Replay != "" {
+		// metadata types that only occur in the harvest get their sample from a silent pre-pass
+		for _, f := range fx {
+			runHarvest(f, nil)
+		}
 		for _, l := range hx.ReplayLines(o.Replay) {
 			t := strings.Split(l, " ")
 			switch t[0] {
+			case "purlrt":
+				if len(t) != 4 {
+					out.Emit(l, "bad-op")
+					continue
+				}
+				out.Emit(l, runPurlRT(hx.UnHex(t[1]), t[2], hx.UnHex(t[3])))
+			case "proto":
+				out.Emit(l, hx.Guard(func() string { return runProto(parseProto(l)) }))
 			case "index":
 				out.Emit(l, runIndex(parsePkgs(t[1])))
 			case "harvest":
@@ -838,6 +867,14 @@ func main() {
 			}
 			l := "accept " + t[0] + " " + hx.Hex(t[1]) + " " + hx.Hex(t[2])
 			out.Emit(l, runAccept(t[1]))
+			if t[0] == "e" {
+				for _, f := range purlFields {
+					for _, b := range nastyBits {
+						l := "purlrt " + hx.Hex(t[1]) + " " + f + " " + hx.Hex("a"+b+"b")
+						out.Emit(l, runPurlRT(t[1], f, "a"+b+"b"))
+					}
+				}
+			}
 		}
 	}
 	for _, v := range osReleases {
@@ -845,6 +882,8 @@ func main() {
 		out.Emit(l, runLayout(scratch, v.name))
 	}
 	// every fixture of every built-in filesystem extractor, in both tiers
+	var protoCases []protoCase
+	emitProto = func(c protoCase) { protoCases = append(protoCases, c) }
 	for _, f := range fx {
 		var idx [][]purlMeta
 		l := "harvest " + hx.Hex(f.ex.Name()) + " " + hx.Hex(f.rel)
@@ -853,8 +892,35 @@ func main() {
 			out.Emit("index "+pkgsStr(ms), runIndex(ms))
 		}
 	}
+	emitProto = nil
+	seen := map[string]bool{}
+	for _, c := range protoCases {
+		if l := c.line(); !seen[l] {
+			seen[l] = true
+			out.Emit(l, runProto(parseProto(l)))
+		}
+	}
+	// every metadata sample once, with and without purl / layer details
+	for _, mn := range metaNames {
+		for k := 0; k < 2; k++ {
+			c := protoCase{name: "n", version: "1", locs: []string{"b", "a"}, eco: "Eco", ex: "ex/x", meta: mn}
+			if k == 1 {
+				c.u = &purl.PackageURL{Type: "deb", Namespace: "debian", Name: "n", Version: "1", Qualifiers: purl.Qualifiers{{Key: "distro", Value: "x y"}, {Key: "arch", Value: "z"}}, Subpath: "s/p"}
+				c.layer = &extractor.LayerDetails{Index: 2, DiffID: "sha256:x", Command: "RUN a", InBaseImage: true}
+				c.src = &extractor.SourceCodeIdentifier{Repo: "r", Commit: "c"}
+				c.anns = []extractor.Annotation{1, 2, 3, 0, 9}
+			}
+			l := c.line()
+			out.Emit(l, runProto(parseProto(l)))
+		}
+	}
 	r := hx.Rng(o)
 	for i := 0; i < o.N; i++ {
+		if i%3 == 2 {
+			l := randProto(r).line()
+			out.Emit(l, runProto(parseProto(l)))
+			continue
+		}
 		ms := randIndex(r)
 		out.Emit("index "+pkgsStr(ms), runIndex(ms))
 	}
